@@ -261,7 +261,7 @@ func (x *Exec) specValue(e ast.Expr, env *SpecEnv) TV {
 	case *ast.IndexExpr:
 		base := x.specValue(e.X, env)
 		idx := x.specValue(e.Index, env)
-		return x.specIndex(base, idx, e)
+		return x.capture(x.specIndex(base, idx, e), env)
 	case *ast.SliceExpr:
 		base := x.specValue(e.X, env)
 		is := x.idxSort()
